@@ -47,7 +47,7 @@ func init() {
 		Exec: c38Exec,
 		NonTrivial: func(lines []string) bool {
 			for _, l := range lines {
-				if strings.HasPrefix(l, "rec ") || strings.HasPrefix(l, "un ") || strings.HasPrefix(l, "px ") || strings.HasPrefix(l, "ex ") {
+				if strings.HasPrefix(l, "rec ") || strings.HasPrefix(l, "un ") || strings.HasPrefix(l, "px ") || strings.HasPrefix(l, "ex ") || strings.HasPrefix(l, "dx ") || strings.HasPrefix(l, "dp ") || strings.HasPrefix(l, "conc ") {
 					return true
 				}
 			}
@@ -539,7 +539,7 @@ func c38Exec(c *Case) {
 				h.close()
 			}
 			h = c38NewHTTP(c, l, f)
-		case f[0] == "un" || f[0] == "px" || f[0] == "ex" || f[0] == "fault":
+		case f[0] == "un" || f[0] == "px" || f[0] == "ex" || f[0] == "fault" || f[0] == "dx" || f[0] == "dp" || f[0] == "conc":
 			if h == nil {
 				c.Out(l, "err:no-server")
 				continue
